@@ -62,8 +62,8 @@ func genC14(r *Rng, tier string) []Case {
 		for _, k := range []string{"k1", "k2", "zz"} {
 			for _, op := range []string{"kind", "kindD"} {
 				out = append(out, runC14(c14Desc{
-					Pool:    []c14Def{{Kind: "k1"}, {Kind: "k1"}, {Kind: "k2"}, {Kind: "dflt"}},
-					Reg:     reg, Default: 3, Lookup: c14Lookup{Op: op, Kind: k},
+					Pool: []c14Def{{Kind: "k1"}, {Kind: "k1"}, {Kind: "k2"}, {Kind: "dflt"}},
+					Reg:  reg, Default: 3, Lookup: c14Lookup{Op: op, Kind: k},
 				}))
 			}
 		}
